@@ -527,13 +527,14 @@ def _map(c, table, multi, tname):
         return [a2 if a2 == b2 else z3.If(cond, a2, b2)]
     # general character over 0..DOMAIN-1
     for k in multi:
-        if k < DOMAIN and _CUR.branch(_atom(c, k, lambda: c == k)):
+        if (k < DOMAIN or not _is_var(c)) and _CUR.branch(_atom(c, k, lambda: c == k)):
             return list(multi[k])
     groups = _MAP_CACHE.get(tname)
     if groups is None:
+        # over the whole table range (not only 0..DOMAIN-1): the argument may be the image of an earlier mapping (e.g. upper() of U+00FF)
         by_delta = {}
-        for k in range(DOMAIN):
-            if k in table and table[k] != k:
+        for k in sorted(table):
+            if table[k] != k:
                 by_delta.setdefault(table[k] - k, []).append(k)
         groups = _MAP_CACHE[tname] = [(d, _ranges(v)) for d, v in by_delta.items()]
     def build():
